@@ -61,13 +61,40 @@ finally:
 '''
 
 
+_CHILD_STD = r'''
+import json, sys, tempfile
+sys.path.insert(0, sys.argv[2])
+from contracts import hprog as H, hstd
+import pynguin.configuration as config
+name = sys.argv[1][len("std:"):]
+modname, extra, vec = hstd.SUBJECTS[name]
+src = hstd._source(modname, extra)
+d = tempfile.mkdtemp(prefix="hstd_c_")
+try:
+    plain, _p = H.load_plain("hs_plain_" + name, d, src)
+    inst, sp, _i = H.load_instrumented("hs_inst_" + name, d, {config.CoverageMetric[m] for m in sys.argv[3].split(",")}, src)
+    vp, vi = vec(plain), vec(inst)
+    out = []
+    for fn in vp:
+        for k, (fp, fi) in enumerate(zip(vp[fn], vi[fn])):
+            a = H.call(getattr(plain, fn), fp())
+            b, _tr = H.traced(inst, sp, fn, fi)
+            out.append((f"{fn}#{k}", a == b, repr(a)[:300], repr(b)[:300]))
+    print("HPROG-RESULT " + json.dumps(out))
+finally:
+    import shutil
+    shutil.rmtree(d, ignore_errors=True)
+'''
+
+
 def _run_child(job):
     import os, subprocess, sys  # noqa: E401
     fn, metrics = job
     root = os.path.dirname(os.path.dirname(os.path.abspath(__file__)))
     env = dict(os.environ)
     try:
-        r = subprocess.run([sys.executable, "-c", _CHILD, fn, root, metrics], capture_output=True, text=True, timeout=600, env=env)   # noqa: S603
+        r = subprocess.run([sys.executable, "-c", _CHILD_STD if fn.startswith("std:") else _CHILD, fn, root, metrics],   # noqa: S603
+                           capture_output=True, text=True, timeout=600, env=env)
     except subprocess.TimeoutExpired:
         return fn, metrics, None, "timeout", ""
     line = next((ln for ln in r.stdout.splitlines() if ln.startswith("HPROG-RESULT ")), None)
@@ -84,6 +111,8 @@ def _check_checked(part: Part, tier, seed):
     # (BRANCH is left out of these sets: its known findings - operators evaluated again, one-shot iterators - are judged in
     #  the other part and would only repeat here)
     jobs = [(fn, m) for fn in names for m in ("CHECKED", "CHECKED,LINE")]
+    from . import hstd
+    jobs += [(f"std:{n}", "CHECKED") for n in hstd.SUBJECTS]          # each module of the stdlib corpus, all its calls
     with mp.get_context("fork").Pool(8) as pool:
         results = pool.map(_run_child, jobs)
     tgt = "pynguin.instrumentation.version.python3_12:CheckedCoverageInstrumentation"
@@ -113,7 +142,20 @@ def bounded_checked(tier, seed):
     return guarded(p, _check_checked, tier, seed)
 
 
-BOUNDED = [bounded_c01, bounded_checked]
+def bounded_stdlib(tier, seed):
+    from . import hstd
+    p = Part("C01", "stdlib-corpus", ["pynguin.instrumentation.transformer:InstrumentationTransformer.instrument_code",
+                                      "pynguin.instrumentation.version.python3_12:BranchCoverageInstrumentation",
+                                      "pynguin.instrumentation.version.python3_12:LineCoverageInstrumentation",
+                                      "pynguin.instrumentation.version.python3_12:DynamicSeedingInstrumentation"],
+             scope=hstd.SCOPE_TEXT + "; same comparison of the instrumented with the uninstrumented call as for H-prog, under {BRANCH}, "
+                   "{LINE}, {BRANCH, LINE} (dynamic seeding always on); a module that cannot be imported through the import hook counts "
+                   "as a violation", bound="the listed modules and calls")
+    return guarded(p, lambda part, t, s: hstd.run_corpus(part, t, s, "C01", "c01", "judge_behaviour", ("B", "L", "BL"),
+                                                          import_failure_is_violation=True), tier, seed)
+
+
+BOUNDED = [bounded_c01, bounded_checked, bounded_stdlib]
 META = {"level": "other", "explanation": "bounded differential contract check: the uninstrumented run is the oracle",
         "rule": "one case per (function, argument vector, metric set)"}
 
